@@ -69,7 +69,7 @@ def cases(ctx):
         for z in (0, 1, 17):
             for enc in (False, True):
                 yield ("core", ln, z, enc)
-    for v in deviations(DIMS, 2 if ctx.quick else 3):
+    for v in deviations(DIMS, 3 if ctx.quick else 4):
         yield ("bf3",) + v
     for oi in range(len(ORDERS)):
         for body in range(3):
